@@ -723,4 +723,305 @@ theorem ev_step4_bad (o : OSt) (x i y z : Int) (h : o.r1 = none) : (ev o 14 [x, 
     · simp [ev, hb', hs, h, OSt.fail]
     · simp [ev, hb', hs, OSt.fail]
 
+
+section Top
+variable (P : Params) (oracle : Nat → Bool) (fuel : Nat) (ea : Int)
+
+/-- **converse**: when the hand model `chain` faults, the run of the translated skeleton ends dead -/
+theorem skel_dead (hfn : P.n + 11 ≤ fuel) (hfr : P.row.length ≤ fuel) (hea : ea = if P.eightAbove then 1 else 0)
+    (he : (chain P).err ≠ none) :
+    Dead (theta_chain_comput_strategy obs P.row oracle fuel P.n ea (ThetaSt.init (OSt.init P.kexp))) := by
+  by_cases hn : P.n ≤ 1
+  · unfold theta_chain_comput_strategy
+    simp only [step_live2, ThetaSt.init, OSt.init, obs_ev, EvKind.vla]
+    generalize hK : ThetaSt.mk _ _ _ _ _ _ _ _ _ _ = K
+    have hd : Dead K := by
+      rw [← hK]
+      exact dead_of_bad _ (ev_vla_bad _ _ _ (by omega))
+    have hs : ∀ f, ThetaSt.step obs f K = K := fun f => step_dead f K hd
+    simp only [hs]
+    exact hd
+  unfold chain at he
+  simp only [hn, if_false] at he
+  have hadj := adj_cases P
+  have hn1 : (0 : Int) < (P.n : Int) - 1 := by omega
+  have hn0 : (0 : Int) < (P.n : Int) := by omega
+  unfold theta_chain_comput_strategy
+  simp only [step_live2, ThetaSt.init, OSt.init, obs_ev, EvKind.vla, ev_vla_s, hn1, hn0]
+  -- the first while
+  have hadjv : (2 : Int) * (1 - ea) = (P.adj : Int) := by
+    rcases hadj with ⟨h1, h2⟩ | ⟨h1, h2⟩ <;> rw [hea, h1, h2] <;> rfl
+  rw [hadjv]
+  unfold prelude at he
+  simp only [] at he
+  by_cases eP' : ¬ ((phase1 P (initSt P)).err = none)
+  · generalize hX : ThetaSt.mk _ _ _ _ _ _ _ _ _ _ = X
+    have hd := loop0_dead P oracle fuel ea fuel X (initSt P) (by rw [← hX]) (by rw [← hX]) rfl (by rw [← hX]; rfl)
+      (by rw [← hX]; rfl) (by rw [← hX]) eP'
+    generalize hkX : whileF _ _ _ _ fuel X = kX at hd ⊢
+    have hs : ∀ f, ThetaSt.step obs f kX = kX := fun f => step_dead f kX hd
+    simp only [hs]
+    exact hd
+  have eP : (phase1 P (initSt P)).err = none := Classical.not_not.mp eP'
+  have eS : (setLenList (phase1 P (initSt P))).err = none := by rw [setLenList_ok _ eP]; exact eP
+  generalize hX : ThetaSt.mk _ _ _ _ _ _ _ _ _ _ = X
+  have hl0 := loop0 P oracle fuel ea fuel X (initSt P) (by rw [← hX]) (by rw [← hX]) rfl (by rw [← hX]; rfl)
+    (by rw [← hX]; rfl) (by rw [← hX]) (by simp [initSt]; omega) eP
+  obtain ⟨l1, l2, l3, l4, l5, l6⟩ := hl0
+  erw [l1]
+  subst hX
+  have hkx : (0 : Int) < (P.n : Int) ∧ True := ⟨hn0, trivial⟩
+  simp only [step_live2, obs_ev, EvKind.vla, EvKind.copyIn, ev_vla_s, ev_copyIn_s, OSt.inb, OSt.put, IArr.new, IArr.inb,
+    IArr.set, hn0, hn1, Int.le_refl, decide_true, Bool.and_true, Bool.true_and, if_true, if_false, Int.reduceEq,
+    ite_true, ite_false]
+  generalize hX : ThetaSt.mk _ _ _ _ _ _ _ _ _ _ = X
+  have hs2 := setLenList_ok _ eP
+  have R1 : RelQ P (fun _ => none) X (setLenList (phase1 P (initSt P))) := by
+    rw [hs2, ← hX]
+    constructor
+    · rfl
+    · rfl
+    · exact eP
+    · rfl
+    · rfl
+    · rfl
+    · rfl
+    · rfl
+    · intro i
+      rw [l2]
+      simp only [initSt]
+      by_cases h : i = 0
+      · subst h; rfl
+      · have : ¬ (i : Int) = 0 := by omega
+        simp [h, this]
+    · simp
+    · simp
+    · simp
+    · simp
+    · simp
+    · intro i
+      rw [l3]
+      simp only [initSt]
+      by_cases h : i = 0
+      · subst h; simp
+      · have : ¬ (i : Int) = 0 := by omega
+        simp [h, this]
+    · intro i
+      rw [l3]
+      simp only [initSt]
+      by_cases h : i = 0
+      · subst h; simp
+      · have : ¬ (i : Int) = 0 := by omega
+        simp [h, this]
+    · intro i; rfl
+    · intro i; rfl
+    · rfl
+    · simp only [logs_append, l6]
+      simp [logs, initSt, mDbls, mSteps, mKers]
+  by_cases eB' : ¬ ((buildPts P (setLenList (phase1 P (initSt P))).index 1 (setLenList (phase1 P (initSt P)))).err = none)
+  · have hd := pts_dead P oracle fuel ea (fun _ => none) (setLenList (phase1 P (initSt P))).index fuel 0 X _ R1
+      (by rw [← hX]; rfl) (by rw [hs2]; simp only []; omega) eB'
+    generalize hkX : whileF _ _ _ _ fuel X = kX at hd ⊢
+    have hs : ∀ f, ThetaSt.step obs f kX = kX := fun f => step_dead f kX hd
+    simp only [hs]
+    exact hd
+  have eB : (buildPts P (setLenList (phase1 P (initSt P))).index 1 (setLenList (phase1 P (initSt P)))).err = none := Classical.not_not.mp eB'
+  have hBf := buildPts_facts P (setLenList (phase1 P (initSt P))).index 1 (setLenList (phase1 P (initSt P))) (by omega) eS
+    (by
+      intro j hj
+      have : j = 0 := by omega
+      subst this
+      rw [hs2]; simp only []; rw [l3]; simp [initSt]) eB
+  have RB := pts_sim P oracle fuel ea (fun _ => none) (setLenList (phase1 P (initSt P))).index fuel 0 X _ R1
+    (by rw [← hX]; rfl) (by rw [hs2]; simp only []; omega) (by rcases hBf.2.1 with h | h <;> omega) eB
+  generalize hkB : whileF _ _ _ _ fuel X = kB at RB ⊢
+  generalize hmB : buildPts P (setLenList (phase1 P (initSt P))).index 1 (setLenList (phase1 P (initSt P))) = mB
+    at RB hBf eB he ⊢
+  clear hkB hX R1
+  by_cases e1' : ¬ ((glueStep P mB).err = none)
+  · have hc := (glueStep_err_iff P mB RB.me).1 e1'
+    have hbad : (ev kB.obs 5 [1, kB.len_list - 1]).bad = true := by
+      apply ev_read_bad
+      intro h
+      apply hc
+      obtain ⟨h1, h2⟩ := h
+      simp only [OSt.inb, RB.s1, RB.ll, Bool.and_eq_true, decide_eq_true_eq] at h1
+      have hcn : mB.lenList - 1 = (((mB.lenList - 1).toNat : Nat) : Int) := by omega
+      refine ⟨by simp [idxOK]; omega, ?_⟩
+      rw [RB.ll, hcn, RB.a1] at h2
+      exact h2
+    simp [Dead, ThetaSt.step, ThetaSt.live, SqiProofs.SkelThetaSim.obs_ok, obs_ev, RB.kf, RB.kb, EvKind.read, hbad]
+  have e1 : (glueStep P mB).err = none := Classical.not_not.mp e1'
+  obtain ⟨c, kk, hc, hcn, hpk, hglue⟩ := glueStep_inv P mB RB.me e1
+  have hkf := RB.kf
+  have hkb := RB.kb
+  have hll : kB.len_list = (c : Int) + 1 := by rw [RB.ll, hc]
+  have ha1 : kB.obs.arr 1 (c : Int) = some kk := by rw [RB.a1, hpk]
+  have ha2 : kB.obs.arr 2 (c : Int) = some kk := by rw [RB.a2, hpk]
+  have hs1 := RB.s1
+  have hs2' := RB.s2
+  have hc0 : (0 : Int) ≤ (c : Int) := by omega
+  have hc1 : (c : Int) < (P.n : Int) := by omega
+  simp only [step_live2, hkf, hkb, obs_ev, EvKind.read, ev_read_s, OSt.inb, hll, Int.add_sub_cancel, ha1, ha2, hs1, hs2',
+    hc0, hc1, decide_true, Bool.and_true, Option.isSome_some, Option.getD_some]
+  rw [hglue] at he
+  generalize hX : ThetaSt.mk _ _ _ _ _ _ _ _ _ _ = X2
+  generalize hmG : St.mk _ _ _ _ _ _ _ _ = mG at he
+  have hBl : mB.lenList = ((setLenList (phase1 P (initSt P))).index : Int) + 1 := by
+    rw [hBf.1, hs2]
+  have hci : c = (setLenList (phase1 P (initSt P))).index := by omega
+  have RG0 : RelQ P (fun j => if j < 0 then mG.q j else none) X2 mG := by
+    rw [← hX, ← hmG]
+    constructor
+    · rfl
+    · rfl
+    · exact RB.me
+    · exact RB.ix
+    · rfl
+    · exact RB.lc
+    · exact RB.ad
+    · exact RB.lvs
+    · exact RB.lvg
+    · exact RB.s1
+    · exact RB.s2
+    · exact RB.s3
+    · exact RB.s4
+    · exact RB.s5
+    · exact RB.a1
+    · exact RB.a2
+    · intro i; simp [RB.a3]
+    · intro i; simp [RB.a4]
+    · exact RB.tg
+    · have := RB.lg
+      simp only [logs, Prod.mk.injEq] at this
+      simp [logs_append, this.1, this.2.1, this.2.2, logs, mDbls, mSteps, mKers]
+  have RD := glue_sim P oracle fuel ea c fuel 0 X2 mG RG0 (by rw [← hX]; rfl) (by rw [← hmG]; simp) (by omega) (by omega)
+    (by
+      intro j hj
+      have hp := hBf.2.2 j (by omega)
+      obtain ⟨v, hv⟩ := Option.isSome_iff_exists.1 hp
+      refine ⟨v, ?_, ?_⟩
+      · rw [← hmG]; exact hv
+      · rw [← hmG]
+        have : (j : Int) < (c : Int) := by omega
+        simp [this, hv])
+  have hg : (fun j => if j < 0 + c then mG.q j else none) = mG.q := by
+    funext j
+    by_cases hj : j < c
+    · simp [hj]
+    · rw [← hmG]
+      have : ¬ (j : Int) < (c : Int) := by omega
+      simp [hj, this]
+  rw [hg] at RD
+  generalize hkD : whileF _ _ _ _ fuel X2 = kD at RD ⊢
+  have hqsG : Qs mG := by
+    intro j hj
+    rw [← hmG] at hj ⊢
+    simp only [] at hj
+    have hp := hBf.2.2 j (by omega)
+    obtain ⟨v, hv⟩ := Option.isSome_iff_exists.1 hp
+    simp [hj, hv]
+  clear hkD hX RG0 hg
+  -- the main loop
+  have hm : P.m = (P.n : Int) - 1 - (P.adj : Int) := rfl
+  have hGll : 0 ≤ mG.lenList := by rw [← hmG]; simp
+  rw [step_live _ kD RD.kf RD.kb]
+  rw [step_live _ { kD with i := 0 } RD.kf RD.kb]
+  have R3 : Rel P { kD with i := 0 } mG :=
+    ⟨RD.kf, RD.kb, RD.me, RD.ix, RD.ll, RD.lc, RD.ad, RD.lvs, RD.lvg, RD.s1, RD.s2, RD.s3, RD.s4, RD.s5, RD.a1, RD.a2,
+      RD.a3, RD.a4, RD.tg, RD.lg⟩
+  by_cases hm0 : 0 ≤ P.m
+  · by_cases eF' : ¬ ((forLoop P P.m.toNat 0 mG).err = none)
+    · have hd := for_dead P oracle fuel ea (by omega) hfr hea P.m.toNat fuel 0 _ mG R3 rfl hqsG hGll (by omega) eF'
+      generalize hkX : whileF _ _ _ _ fuel { kD with i := 0 } = kX at hd ⊢
+      have hs : ∀ f, ThetaSt.step obs f kX = kX := fun f => step_dead f kX hd
+      simp only [hs]
+      exact hd
+    have eF : (forLoop P P.m.toNat 0 mG).err = none := Classical.not_not.mp eF'
+    obtain ⟨RE, _⟩ := for_sim P oracle fuel ea (by omega) hfr hea P.m.toNat fuel 0 _ mG R3 rfl hqsG (by omega) (by omega) eF
+    generalize hkE : whileF _ _ _ _ fuel _ = kE at RE ⊢
+    generalize hmF : forLoop P P.m.toNat 0 mG = mF at RE eF he ⊢
+    clear hkE R3
+    have hkf := RE.kf
+    have hkb := RE.kb
+    have h5 := RE.s5
+    have hs3 := RE.s3
+    have hs4 := RE.s4
+    have htg := RE.tg
+    have h2le : (2 : Int) ≤ (P.n : Int) := by omega
+    have hnpos : 0 < P.n := by omega
+    obtain ⟨h1, hcF⟩ := (finalSteps_err_iff P mF RE.me).1 he
+    have hea0 : ea = 0 := by rw [hea, h1]; rfl
+    subst hea0
+    by_cases h4 : 4 ≤ P.n
+    · have hidx : idxOK ((P.n : Int) - 4) (P.n - 1) = true := by simp [idxOK]; omega
+      have hq0 : mF.q 0 = none := by
+        cases hq : mF.q 0 with
+        | none => rfl
+        | some o => exact absurd ⟨hidx, by simp [hq]⟩ hcF
+      have ha3 : kE.obs.arr 3 0 = none := by simpa [hq0] using RE.a3 0
+      have ha4 : kE.obs.arr 4 0 = none := by simpa [hq0] using RE.a4 0
+      have h4le : (4 : Int) ≤ (P.n : Int) := by omega
+      have h3le : (3 : Int) ≤ (P.n : Int) := by omega
+      simp [Dead, ThetaSt.step, ThetaSt.live, SqiProofs.SkelThetaSim.obs_ok, obs_ev, hkf, hkb, truthy, EvKind.split, EvKind.loadR, EvKind.evalR,
+        EvKind.step4, EvKind.step2, ev_loadR3_s, ev_loadR4_s, ev_loadR5_s, ev_evalR_s, ev_step4_bad,
+        OSt.inb, h5, hs3, hs4, htg, hn0, hnpos, h2le, h3le, h4le, ha3, ha4]
+    · have h4n : ¬ (4 : Int) ≤ (P.n : Int) := by omega
+      simp [Dead, ThetaSt.step, ThetaSt.live, SqiProofs.SkelThetaSim.obs_ok, obs_ev, hkf, hkb, truthy, EvKind.split, EvKind.loadR, EvKind.evalR,
+        EvKind.step4, EvKind.step2, ev_loadR3_s, ev_loadR4_s, ev_evalR_bad,
+        OSt.inb, h5, hs3, hs4, htg, hn0, hnpos, h2le, h4n]
+  · have hz : P.m.toNat = 0 := by omega
+    rw [hz] at he
+    simp only [forLoop] at he
+    rw [whileF_stop _ _ _ _ _ _ (by simp [theta_chain_comput_strategy_loop3_cond, RD.ad]; omega)]
+    generalize hkE : ({ kD with i := 0 } : ThetaSt OSt) = kE at R3 ⊢
+    have RE := R3
+    generalize hmF : mG = mF at RE he
+    have hkf := RE.kf
+    have hkb := RE.kb
+    have h5 := RE.s5
+    have hs3 := RE.s3
+    have hs4 := RE.s4
+    have htg := RE.tg
+    have h2le : (2 : Int) ≤ (P.n : Int) := by omega
+    have hnpos : 0 < P.n := by omega
+    obtain ⟨h1, hcF⟩ := (finalSteps_err_iff P mF RE.me).1 he
+    have hea0 : ea = 0 := by rw [hea, h1]; rfl
+    subst hea0
+    by_cases h4 : 4 ≤ P.n
+    · have hidx : idxOK ((P.n : Int) - 4) (P.n - 1) = true := by simp [idxOK]; omega
+      have hq0 : mF.q 0 = none := by
+        cases hq : mF.q 0 with
+        | none => rfl
+        | some o => exact absurd ⟨hidx, by simp [hq]⟩ hcF
+      have ha3 : kE.obs.arr 3 0 = none := by simpa [hq0] using RE.a3 0
+      have ha4 : kE.obs.arr 4 0 = none := by simpa [hq0] using RE.a4 0
+      have h4le : (4 : Int) ≤ (P.n : Int) := by omega
+      have h3le : (3 : Int) ≤ (P.n : Int) := by omega
+      simp [Dead, ThetaSt.step, ThetaSt.live, SqiProofs.SkelThetaSim.obs_ok, obs_ev, hkf, hkb, truthy, EvKind.split, EvKind.loadR, EvKind.evalR,
+        EvKind.step4, EvKind.step2, ev_loadR3_s, ev_loadR4_s, ev_loadR5_s, ev_evalR_s, ev_step4_bad,
+        OSt.inb, h5, hs3, hs4, htg, hn0, hnpos, h2le, h3le, h4le, ha3, ha4]
+    · have h4n : ¬ (4 : Int) ≤ (P.n : Int) := by omega
+      simp [Dead, ThetaSt.step, ThetaSt.live, SqiProofs.SkelThetaSim.obs_ok, obs_ev, hkf, hkb, truthy, EvKind.split, EvKind.loadR, EvKind.evalR,
+        EvKind.step4, EvKind.step2, ev_loadR3_s, ev_loadR4_s, ev_evalR_bad,
+        OSt.inb, h5, hs3, hs4, htg, hn0, hnpos, h2le, h4n]
+end Top
+
+/-- **fault status of the translated text = fault status of the hand model** -/
+theorem skel_live_iff (P : Params) (oracle : Nat → Bool) (fuel : Nat) (ea : Int)
+    (hfn : P.n + 11 ≤ fuel) (hfr : P.row.length ≤ fuel) (hea : ea = if P.eightAbove then 1 else 0) :
+    ((theta_chain_comput_strategy obs P.row oracle fuel P.n ea (ThetaSt.init (OSt.init P.kexp))).fault = none ∧
+      (theta_chain_comput_strategy obs P.row oracle fuel P.n ea (ThetaSt.init (OSt.init P.kexp))).obs.bad = false) ↔
+    (chain P).err = none := by
+  constructor
+  · intro h
+    by_cases he : (chain P).err = none
+    · exact he
+    · exfalso
+      have hd := skel_dead P oracle fuel ea hfn hfr hea he
+      exact ((live_iff _).2 h) hd
+  · intro he
+    have F := skel_refines P oracle fuel ea hfn hfr hea he
+    exact ⟨F.kf, F.kb⟩
+
 end SqiProofs.SkelThetaConv
